@@ -36,11 +36,17 @@ def main():
     _die_with_parent()
     from vf import repoimport, kit
 
+    import os
+
+    if shard % 2 == 1 and os.environ.get("VF_LOG_DEBUG") is None:
+        os.environ["VF_LOG_DEBUG"] = "1"
     repoimport.setup()
+    repoimport.quiet_logging()
     mod = importlib.import_module("vf.props." + prop.lower())
     rec = kit.Recorder(prop, tier, seed, shard, nshards)
     mod.run_shard(rec, tier, seed, shard, nshards)
     repoimport.check_origin()
+    rec.count("shards_with_debug_logging" if os.environ.get("VF_LOG_DEBUG") == "1" else "shards_with_default_logging")
     with open(out, "w") as f:
         json.dump(rec.result(), f)
 
